@@ -58,7 +58,7 @@ def FullStatement_alpha_aliases_all26 (A : Al) (s : SchemaD) (fx : Fixes) (d : D
 
 /-- **alpha_aliases for ALL 26 RULES**, each rule alone, the overlap rule being the memoised one /repo runs: the
     renaming acts through an injective `ρ` on response keys (`Renames`: for SingleFieldSubscriptions; `RenamesOn`: for
-    the overlap rule; 24 rules never read an alias) -/
+    the overlap rule; 24 rules never read an alias) [ALONE-RUN statement, rule by rule: each rule visitor in a chain of its own; for the verdict of the chain `validate_ast` runs see `Props/C06_chain.lean: chainM_six_transformations`.] -/
 theorem alpha_aliases_all26 (A : Al) (ρ : String → String) (hA : A.Renames ρ) (hρ : ∀ a b, ρ a = ρ b → a = b)
     (s : SchemaD) (fx : Fixes) (hfx : HeadVars fx) (d : Doc) (hA' : A.RenamesOn ρ d) (hpa : Spec.ParentsAgree s d)
     (hne : NamesNonEmpty d) (hw : WfIds d) : FullStatement_alpha_aliases_all26 A s fx d := by
@@ -71,7 +71,7 @@ theorem alpha_aliases_all26 (A : Al) (ρ : String → String) (hA : A.Renames ρ
     exact alpha_aliases_all25_partial A ρ hA hρ s fx d r ho
 
 /-- **the VERDICT of the chain /repo runs is invariant under a renaming of aliases that is injective on response keys**
-    (hypotheses on the document: those of the headline theorems) -/
+    (hypotheses on the document: those of the headline theorems) [About the CONJUNCTION OF THE 26 ALONE RUNS (`SilentM`); the same for the chain itself, `SkipNode` handling included: `Props/C06_chain.lean: chainM_six_transformations`, through `chainM_silent_iff_alone`.] -/
 theorem alpha_aliases_verdict_invariance_memo (A : Al) (ρ : String → String) (hA : A.Renames ρ)
     (hρ : ∀ a b, ρ a = ρ b → a = b) (s : SchemaD) (fx : Fixes) (hfx : HeadVars fx) (hs : SchemaOutputs s) (d : Doc)
     (hd : DocOkM s d) (hA' : A.RenamesOn ρ d) :
